@@ -14,8 +14,16 @@ ASSUMPTIONS = [
   "a JSON schema = a self-contained schema that is valid against its draft's meta-schema (jsonschema raises SchemaError otherwise, "
   "outside the property); unresolvable $ref / $dynamicRef (jsonschema's _WrappedReferencingError) are outside this reading and are "
   "never generated",
-  "the Coq model fixes draft 2020-12 semantics (the default when $schema is absent); drafts 2019-09 / 7 / 4 / 3 are exercised by the "
-  "searcher only",
+  "the Coq model fixes draft 2020-12 semantics (the default when $schema is absent); drafts 2019-09 / 7 / 4 are exercised by the "
+  "searcher only; draft 3 is in the model through its boolean `required` (SRequired3, the draft-3 `required` record of wf_verr, the "
+  "boolean branch of process_error) and is compared with jsonschema's Draft3Validator on schemas over the keywords that mean the same in "
+  "draft 3 and in draft 2020-12 (type names without `any`, properties with the flags, patternProperties, additionalProperties, items "
+  "as one schema, minimum / maximum, lengths, item counts, enum, pattern, extends = allOf, annotations) and on values without "
+  "integral floats (1.0 is an integer from draft 6 on, not in draft 3); the rest of draft 3 (`any`, divisibleBy, dependencies, "
+  "integral floats) is decided by the searcher's oracle only",
+  "contract on a draft-3 `required` record (wf_verr, compared with jsonschema's real records on every run): validator_value is True, the "
+  "instance is the parent object, the path ends with the missing key, that key is a declared property of the record's schema and is "
+  "absent from the instance",
   "JSON values as produced by json.loads: finite floats, ints below the 4300-digit str limit of CPython, nesting depth <= 200",
   "Python's \\w is modelled on ASCII ([A-Za-z0-9_]); non-ASCII word characters in unknown keys are decided by the searcher only",
   "regular-expression matching (pattern) is an oracle supplied per case by Python's re.search",
@@ -41,11 +49,12 @@ DRAFT2019 = "https://json-schema.org/draft/2019-09/schema"
 DRAFT2020 = "https://json-schema.org/draft/2020-12/schema"
 
 FAM_HUGE = "multipleOf-float-on-huge-int"
-FAM_D3 = "required-draft3-boolean"
+FAM_D3 = "draft3"
 
 KEYS = ["a", "b", "c", "u", "uu", "key_1", "x9", "_", "p", "U2"]
 ODD_KEYS = ["b c", "it's", "", "u'x", "☃", "a-b", 'q"r', "u'", "'", "a,b", "'a'", "u", "€1"]
 UNI_KEYS = ["é", "ключ", "日本", "naïve_1", "²"]
+D3_KEYS = KEYS + ["b c", "it's", "", "a-b", 'q"r', "0", "'", "1st", "[0]"]
 STRS = ["", "a", "ab", "abc", "x", "hello world", "u", "aaaaaa", "日本", "é", "☃", "a'b", "0", "12", "xy", "b"]
 PATTERNS = ["^a", "b$", "^[a-z]+$", "[0-9]", "^$", "u'", "x|y", "^.{2,3}$"]
 # patternProperties patterns of the correspondence: identifier-like ones (returned by the regular expression of process_error after
@@ -208,6 +217,112 @@ def gen_schema(rng, depth, wide=False, pprob=0.0):
   return s
 
 
+def gen_schema3(rng, depth, wide=False, flag=False):
+  """A draft-3 schema object: the boolean `required` inside the sub-schemas of `properties` (flag=True: this schema IS such a
+  sub-schema), mixed with the keywords that mean the same in draft 3 and in draft 2020-12; wide adds what only the searcher's
+  oracle reads (`any`, divisibleBy, dependencies, non-ASCII keys).  The key order of every object is shuffled."""
+  s = {}
+  p = rng.random
+  choices = ["object", "array", "string", "number", "integer", "boolean", "null", None, "multi"]
+  weights = [7 if depth > 0 else 1, 3 if depth > 0 else 1, 2, 2, 2, 1, 1, 2, 1]
+  t = rng.choices(choices, weights)[0]
+  if t == "multi":
+    ts = rng.sample(TYPES, rng.randint(1, 3))
+    s["type"] = ts
+    ft = rng.choice(ts)
+  elif t is None:
+    ft = rng.choice(TYPES)
+    if wide and p() < 0.3:
+      s["type"] = "any"
+  else:
+    s["type"] = t
+    ft = t
+  if ft == "object":
+    if p() < 0.9:
+      ks = rng.sample(D3_KEYS + (UNI_KEYS if wide else []), rng.randint(1, 3))
+      s["properties"] = {k: gen_schema3(rng, depth - 1, wide, flag=True) for k in ks}
+    q = p()
+    if q < 0.3:
+      s["additionalProperties"] = False
+    elif q < 0.35:
+      s["additionalProperties"] = True
+    elif q < 0.45:
+      s["additionalProperties"] = gen_schema3(rng, depth - 1, wide)
+    if p() < 0.15:
+      pats = rng.sample(["^x", "_", "^u+$", "abc"] if wide else PPATS, rng.randint(1, 2))
+      s["patternProperties"] = {pat: rng.choice([{}, {"type": "integer"}, gen_schema3(rng, depth - 1, wide)]) for pat in pats}
+    if wide and p() < 0.12:
+      dep = rng.choice([rng.choice(KEYS), [rng.choice(KEYS), rng.choice(KEYS)], {"properties": {rng.choice(KEYS): {"required": True}}}])
+      s["dependencies"] = {rng.choice(KEYS): dep}
+  elif ft == "array":
+    if p() < 0.8:
+      s["items"] = gen_schema3(rng, depth - 1, wide)
+    if p() < 0.25:
+      s["minItems"] = rng.randint(0, 3)
+    if p() < 0.25:
+      s["maxItems"] = rng.randint(0, 3)
+  elif ft == "string":
+    if p() < 0.3:
+      s["minLength"] = rng.randint(0, 4)
+    if p() < 0.3:
+      s["maxLength"] = rng.randint(0, 5)
+    if p() < 0.25:
+      s["pattern"] = rng.choice(PATTERNS)
+    if p() < 0.2:
+      s["enum"] = rng.sample(STRS, rng.randint(1, 3))
+  elif ft in ("number", "integer"):
+    b = lambda: rng.choice([rng.randint(-2, 8), rng.randint(-8, 32) / 4.0, 2 ** 70])
+    if p() < 0.4:
+      s["minimum"] = b()
+    if p() < 0.4:
+      s["maximum"] = b()
+    if wide and p() < 0.15:
+      s["divisibleBy"] = rng.choice([2, 3, 0.5])
+  if depth > 0 and p() < 0.1:
+    ext = [gen_schema3(rng, depth - 1, wide) for _ in range(rng.randint(1, 2))]
+    s["extends"] = ext[0] if len(ext) == 1 and p() < 0.5 else ext
+  if p() < 0.12:
+    s[rng.choice(["title", "description", "default"])] = rng.choice(["t", "text"])
+  if flag:
+    r = p()
+    if r < 0.55:
+      s["required"] = True
+    elif r < 0.8:
+      s["required"] = False
+  elif p() < 0.06:
+    s["required"] = True     # outside `properties` nobody reads the flag
+  items = list(s.items())
+  rng.shuffle(items)
+  return dict(items)
+
+
+def no_integral_floats(v):
+  """draft 3 does not take 1.0 for an integer (the model's draft does): the draft-3 correspondence cases carry no such value"""
+  if isinstance(v, float) and v == int(v):
+    return v + 0.5 if v + 0.5 != int(v + 0.5) else 0.25     # beyond 2**52 every float is integral
+  if isinstance(v, list):
+    return [no_integral_floats(x) for x in v]
+  if isinstance(v, dict):
+    return {k: no_integral_floats(x) for k, x in v.items()}
+  return v
+
+
+def gen_draft3_case(rng):
+  """(schema, value) for the correspondence: a valid object with dropped properties, wrapped under keys / array items / extends
+  (d3_targeted), or a random draft-3 schema whose root is mostly an object with `properties`"""
+  if rng.random() < 0.6:
+    schema, value = d3_targeted(rng, False)
+    return schema, no_integral_floats(value)
+  for _ in range(6):
+    schema = gen_schema3(rng, rng.randint(1, 3))
+    if "properties" in schema:
+      break
+  items = list(schema.items()) + [("$schema", DRAFT3)]
+  rng.shuffle(items)
+  schema = dict(items)
+  return schema, no_integral_floats(gen_value(rng, schema, 4))
+
+
 def _near(rng, m):
   if isinstance(m, int) and abs(m) > 2 ** 60:
     return rng.choice([m - 1, m, m + 1, float(m), 0])
@@ -250,7 +365,7 @@ def gen_value(rng, s, depth, wide=False):
     for k, sub in props.items():
       if rng.random() < 0.75:
         d[k] = gen_value(rng, sub, depth - 1, wide)
-    for k in s.get("required", []):
+    for k in (s["required"] if isinstance(s.get("required"), list) else []):
       if k not in d and rng.random() < 0.6:
         d[k] = gen_value(rng, props.get(k, {}), depth - 1, wide)
     pp = s.get("patternProperties")
@@ -332,24 +447,40 @@ NUMKW = dict(minimum="SMin", maximum="SMax", exclusiveMinimum="SExMin", exclusiv
              maxLength="SMaxLen", minItems="SMinItems", maxItems="SMaxItems", minProperties="SMinProps", maxProperties="SMaxProps")
 
 
-def schlit(s):
+def schlit(s, d3=False):
+  """d3: the schema is read by jsonschema's Draft3Validator.  The boolean `required` of a sub-schema of `properties` is read by the
+  keyword `properties` of the PARENT (SRequired3 next to its SProps); where it stands it constrains nothing (SAnnot)."""
   if s is True or s is False:
     return f"(SBool {C.blit(s)})"
+  sub = lambda x: schlit(x, d3)
   kws = []
   props_done = False
   for k, v in s.items():
     if k == "type":
       kws.append("(SType " + C.listlit([v] if isinstance(v, str) else v, lambda t: TYPE_CTOR[t]) + ")")
+    elif k == "required" and d3:
+      if not isinstance(v, bool):
+        raise C.TieBroken("draft 3: `required` must be a boolean")
+      kws.append("SAnnot")
     elif k == "required":
       kws.append("(SRequired " + C.listlit(v, slit) + ")")
     elif k in ("properties", "patternProperties", "additionalProperties"):
       if not props_done:   # the three keywords are ONE constructor of the model (patterns in the schema's own order)
         props_done = True
-        ap = C.optlit(s["additionalProperties"], schlit) if "additionalProperties" in s else "None"
-        pairs = lambda d: C.listlit(d.items(), lambda kv: f"({slit(kv[0])}, {schlit(kv[1])})")
+        ap = C.optlit(s["additionalProperties"], sub) if "additionalProperties" in s else "None"
+        pairs = lambda d: C.listlit(d.items(), lambda kv: f"({slit(kv[0])}, {sub(kv[1])})")
         kws.append(f"(SProps {pairs(s.get('properties', {}))} {pairs(s.get('patternProperties', {}))} {ap})")
+        if d3 and "properties" in s:
+          flags = [(key, x["required"]) for key, x in s["properties"].items() if isinstance(x, dict) and "required" in x]
+          kws.append("(SRequired3 " + C.listlit(flags, lambda kb: f"({slit(kb[0])}, {C.blit(kb[1])})") + ")")
+    elif d3 and k == "extends":
+      kws.append("(SAnd " + C.listlit(v if isinstance(v, list) else [v], sub) + ")")
+    elif d3 and k == "$schema":
+      kws.append("SAnnot")
+    elif d3 and k in ("exclusiveMinimum", "exclusiveMaximum", "minProperties", "maxProperties", "const", "oneOf", "anyOf", "allOf", "not"):
+      raise C.TieBroken(f"keyword {k} does not mean in draft 3 what it means in the Coq model")
     elif k == "items":
-      kws.append(f"(SItems {schlit(v)})")
+      kws.append(f"(SItems {sub(v)})")
     elif k in NUMKW:
       kws.append(f"({NUMKW[k]} {ql(v)})")
     elif k == "enum":
@@ -359,9 +490,9 @@ def schlit(s):
     elif k == "pattern":
       kws.append(f"(SPattern {PATTERNS.index(v)})")
     elif k in ("oneOf", "anyOf", "allOf"):
-      kws.append("(" + dict(oneOf="SOneOf", anyOf="SAnyOf", allOf="SAnd")[k] + " " + C.listlit(v, schlit) + ")")
+      kws.append("(" + dict(oneOf="SOneOf", anyOf="SAnyOf", allOf="SAnd")[k] + " " + C.listlit(v, sub) + ")")
     elif k == "not":
-      kws.append(f"(SNot {schlit(v)})")
+      kws.append(f"(SNot {sub(v)})")
     elif k in ANNOT:
       kws.append("SAnnot")
     else:
@@ -388,8 +519,8 @@ def all_patterns(s, acc):
       elif k in ("properties", "patternProperties"):
         for x in v.values():
           all_patterns(x, acc)
-      elif k in ("oneOf", "anyOf", "allOf"):
-        for x in v:
+      elif k in ("oneOf", "anyOf", "allOf", "extends"):
+        for x in (v if isinstance(v, list) else [v]):
           all_patterns(x, acc)
       elif k in ("items", "not", "additionalProperties"):
         all_patterns(v, acc)
@@ -425,8 +556,8 @@ def all_patlists(s, acc):
       elif k == "properties" and isinstance(v, dict):
         for x in v.values():
           all_patlists(x, acc)
-      elif k in ("oneOf", "anyOf", "allOf") and isinstance(v, list):
-        for x in v:
+      elif k in ("oneOf", "anyOf", "allOf", "extends") and isinstance(v, (list, dict)):
+        for x in (v if isinstance(v, list) else [v]):
           all_patlists(x, acc)
       elif k in ("items", "not", "additionalProperties"):
         all_patlists(v, acc)
@@ -574,6 +705,14 @@ def gen_verr_obj(rng, depth):
   else:
     msg = "".join(rng.choice("u',ab _9-") for _ in range(rng.randint(0, 14)))
   path = [rng.choice([0, 1, 7, "a", "b c", "u"]) for _ in range(rng.randint(0, 2))]
+  if rng.random() < 0.12:
+    # the draft-3 shape of a `required` record (and malformed variants of it): a boolean validator value, the key at the end of
+    # the path - empty paths, array positions and odd keys included
+    name, vv = "required", rng.choice([True, True, False])
+    path = [rng.choice([0, 1, 7, "a", "b c", "u", "it's", "", "☃"]) for _ in range(rng.randint(0, 3))]
+    if rng.random() < 0.5:
+      inst = rng.choice([{}, {"a": 1}, {"b c": None, "u": [1]}])
+      sch = rng.choice([{"properties": {k: {"required": True} for k in path if isinstance(k, str)}}, {"properties": {"a": {"required": True}, "u": {}}}, sch])
   ctx = [gen_verr_obj(rng, depth - 1) for _ in range(rng.randint(0, 2))] if name in ("oneOf", "anyOf") or rng.random() < 0.1 and depth > 0 else []
   return ValidationError(msg, validator=name, path=path, context=ctx, validator_value=vv, instance=inst, schema=sch)
 
@@ -672,8 +811,9 @@ def correspondence(ctx):
   nontriv = 0
   def bump(k):
     dist[k] = dist.get(k, 0) + 1
-  for i in range(n):
-    if i % 5 == 4:
+  n3 = max(1, n // 5)     # validate calls on draft-3 schemas, appended to the n cases
+  for i in range(n + n3):
+    if i < n and i % 5 == 4:
       e = gen_verr_obj(rng, 2)
       out = run_process(e)
       lists, keys = [], set()
@@ -685,14 +825,19 @@ def correspondence(ctx):
       bump("process_error->" + type(out).__name__)
       nt = True
     else:
-      if i % 5 == 3:
+      d3 = i >= n
+      if d3:
+        schema, value = gen_draft3_case(rng)
+      elif i % 5 == 3:
         schema, value = gen_patprops(rng)
       else:
         schema = gen_schema(rng, rng.randint(0, 3), pprob=0.25)
         value = gen_value(rng, schema, 3)
       v0, s0 = copy.deepcopy(value), copy.deepcopy(schema)
       exc, cause = run_validate(value, schema)
-      inp = dict(family="random", value=v0, schema=s0)
+      inp = dict(family=FAM_D3 if d3 else "random", value=v0, schema=s0)
+      if d3:
+        bump("draft3:validate-calls")
       if "patternProperties" in repr(schema):
         bump("schema-with-patternProperties")
       if repr(v0) != repr(value) or repr(s0) != repr(schema):
@@ -710,6 +855,18 @@ def correspondence(ctx):
         res = f"(Some ({verrlit(cause)}, {pathlit(cause.absolute_path)}, {obslit(exc)}))"
         bump("rejected:" + str(cause.validator))
         bump("raised:" + type(exc).__name__)
+        if d3:
+          bump("draft3:rejected:" + str(cause.validator))
+        if cause.validator == "required" and isinstance(cause.validator_value, bool):
+          # the draft-3 record shape: how deep the missing key sits, under an array position, with a name that is not identifier-like
+          bump("draft3-required-record")
+          bump("draft3-required-record:path-length-%d" % min(len(cause.absolute_path), 4))
+          if any(isinstance(x, int) for x in cause.absolute_path):
+            bump("draft3-required-record:array-position-in-path")
+          if not re.fullmatch(r"[A-Za-z0-9_]+", str(cause.path[-1])):
+            bump("draft3-required-record:odd-key")
+          if len(cause.schema) > 1 + ("$schema" in cause.schema) or any(len(x) > 1 for x in cause.schema["properties"].values()):
+            bump("draft3-required-record:next-to-other-keywords")
         if cause.context:
           bump("rejected-with-context")
         recs = []
@@ -729,7 +886,9 @@ def correspondence(ctx):
             bump("patternProperties-unknown-key-error:with-identifier-like-pattern")
           if unknown and any(k not in rec.schema.get("properties", {}) for k in list(rec.instance)[: list(rec.instance).index(unknown[0])]):
             bump("patternProperties-unknown-key-error:pattern-allowed-key-before-the-unknown-ones")
-      cases.append(f"CVal {jlit(value)} {schlit(schema)} {rx_table(value, schema)} {pm_of_case(value, schema, cause)} {res}")
+      if d3 and exc is None and "'required': False" in repr(schema):
+        bump("draft3:accepted-with-required-false")
+      cases.append(f"CVal {jlit(value)} {schlit(schema, d3)} {rx_table(value, schema)} {pm_of_case(value, schema, cause)} {res}")
       meta.append(("validate", inp, describe_exc(exc)))
       nt = isinstance(schema, dict) and len(schema) >= 2 and depth_of(value) >= 1
     h = C.canon_hash(meta[-1][1])
@@ -741,8 +900,12 @@ def correspondence(ctx):
   for i in bad:
     dis.append(dict(what=f"C20 correspondence case {i} ({meta[i][0]}): implementation differs from Model.Schema (conforms / wf_verr / process_error)",
                     kind=meta[i][0], input=meta[i][1], observed=meta[i][2]))
-  return dict(evaluations=n, distinct_nontrivial=nontriv,
-              rule="4/5 validate(value, schema) calls (1/5 of all cases aimed at additionalProperties next to patternProperties: 0-3 patterns "
+  return dict(evaluations=n + n3, distinct_nontrivial=nontriv,
+              rule="n/5 further validate calls on draft-3 schemas ($schema draft-03): objects whose properties carry `required: true / false` or no flag, "
+                   "with properties dropped from a valid value, nested under odd keys and array items, next to type, patternProperties, additionalProperties, items, bounds, lengths, "
+                   "item counts, enum, pattern, extends and annotations (values without integral floats); every raised record - the draft-3 `required` "
+                   "record included - is checked against wf_verr and translated by the model; the n cases: "
+                   "4/5 validate(value, schema) calls (1/5 of all cases aimed at additionalProperties next to patternProperties: 0-3 patterns "
                    "incl. identifier-like ones, quotes / escapes in their reprs, the empty pattern; declared, pattern-allowed - often first - "
                    "and unknown keys; nested under properties / items / anyOf / oneOf): schemas of depth <= 3 over type (single / list), "
                    "required, properties, patternProperties, additionalProperties (false / true / schema), items, minimum / maximum / exclusive bounds (ints, dyadic floats, 2**70), lengths, item and "
@@ -810,8 +973,11 @@ def o_num(v):
   return isinstance(v, (int, float)) and not isinstance(v, bool)
 
 
-def walk(v, s, out, draft4=False):
-  """True iff v conforms to s; appends the leaf violations (kind, sub-value, detail) met on the way."""
+def walk(v, s, out, draft=0):
+  """True iff v conforms to s; appends the leaf violations (kind, sub-value, detail) met on the way.
+  draft: 0 = draft 6 and later, 4 = draft 4, 3 = draft 3 (boolean `required` inside the sub-schemas of `properties`, `any`, extends,
+  divisibleBy, dependencies; exclusive bounds as booleans and no integral floats as in draft 4)."""
+  draft4 = draft in (3, 4)
   if s is True:
     return True
   if s is False:
@@ -826,6 +992,8 @@ def walk(v, s, out, draft4=False):
     if k == "type":
       if not any(o_type(v, t, not draft4) for t in ([a] if isinstance(a, str) else a)):
         bad("type", str(a))
+    elif k == "required" and draft == 3:
+      pass   # a boolean, read by the keyword `properties` of the enclosing schema (below); where it stands it says nothing
     elif k == "required":
       if isinstance(v, dict):
         miss = [x for x in a if x not in v]
@@ -834,29 +1002,50 @@ def walk(v, s, out, draft4=False):
     elif k == "properties":
       if isinstance(v, dict):
         for key, sub in a.items():
-          if key in v and not walk(v[key], sub, out, draft4):
-            ok = False
+          if key in v:
+            if not walk(v[key], sub, out, draft):
+              ok = False
+          elif draft == 3 and isinstance(sub, dict) and sub.get("required") is True:
+            bad("required", [key])
+    elif k == "extends" and draft == 3:
+      for sub in (a if isinstance(a, list) else [a]):
+        if not walk(v, sub, out, draft):
+          ok = False
+    elif k == "dependencies" and draft == 3:
+      if isinstance(v, dict):
+        for key, dep in a.items():
+          if key in v:
+            if isinstance(dep, dict):
+              if not walk(v, dep, out, draft):
+                ok = False
+            elif any(d not in v for d in ([dep] if isinstance(dep, str) else dep)):
+              bad("dependencies")
     elif k == "patternProperties":
       if isinstance(v, dict):
         for pat, sub in a.items():
           for key in v:
-            if re.search(pat, key) and not walk(v[key], sub, out, draft4):
+            if re.search(pat, key) and not walk(v[key], sub, out, draft):
               ok = False
     elif k == "additionalProperties":
       if isinstance(v, dict):
         pats = list(s.get("patternProperties", {}))
+        if pats == [""]:
+          # jsonschema's find_additional_properties joins the patterns with "|" and takes an EMPTY joined string for "no pattern": with
+          # the single pattern "" no key counts as matched (a stated part of the contract, see ASSUMPTIONS; such schemas reach the oracle
+          # only as hints from the correspondence, whose generator aims at this corner)
+          pats = []
         extras = [key for key in v if key not in s.get("properties", {}) and not any(re.search(p, key) for p in pats)]
         if a is False:
           if extras:
             bad("additional", extras)
         elif isinstance(a, dict):
           for key in extras:
-            if not walk(v[key], a, out, draft4):
+            if not walk(v[key], a, out, draft):
               ok = False
     elif k == "items":
       if isinstance(v, list):
         for x in v:
-          if not walk(x, a, out, draft4):
+          if not walk(x, a, out, draft):
             ok = False
     elif k == "minimum":
       if o_num(v) and (v < a or (draft4 and s.get("exclusiveMinimum") is True and v == a)):
@@ -870,7 +1059,7 @@ def walk(v, s, out, draft4=False):
     elif k == "exclusiveMaximum":
       if not draft4 and o_num(v) and v >= a:
         bad("exclusiveMaximum")
-    elif k == "multipleOf":
+    elif k == "multipleOf" or (k == "divisibleBy" and draft == 3):
       if o_num(v):
         from fractions import Fraction
         if (Fraction(v) / Fraction(a)).denominator != 1:
@@ -901,12 +1090,12 @@ def walk(v, s, out, draft4=False):
         bad("dependentRequired")
     elif k == "allOf":
       for sub in a:
-        if not walk(v, sub, out, draft4):
+        if not walk(v, sub, out, draft):
           ok = False
     elif k == "anyOf":
       inner, hit = [], False
       for sub in a:
-        if walk(v, sub, inner, draft4):
+        if walk(v, sub, inner, draft):
           hit = True
       if not hit:
         ok = False
@@ -915,7 +1104,7 @@ def walk(v, s, out, draft4=False):
     elif k == "oneOf":
       inner, hits = [], 0
       for sub in a:
-        if walk(v, sub, inner, draft4):
+        if walk(v, sub, inner, draft):
           hits += 1
       if hits == 0:
         ok = False
@@ -924,29 +1113,12 @@ def walk(v, s, out, draft4=False):
       elif hits > 1:
         bad("oneOf-many")
     elif k == "not":
-      if walk(v, a, [], draft4):
+      if walk(v, a, [], draft):
         bad("not")
     elif k in ANNOT or k == "$schema":
       pass
     else:
       raise ValueError(f"oracle does not know keyword {k}")
-  return ok
-
-
-def walk_draft3(v, s, out):
-  """draft 3, the small fragment the draft-3 family generates: type / properties with boolean `required`."""
-  ok = True
-  if "type" in s and not o_type(v, s["type"], False):
-    out.append(("type", v, str(s["type"])))
-    ok = False
-  if isinstance(v, dict):
-    for key, sub in s.get("properties", {}).items():
-      if key in v:
-        if not walk_draft3(v[key], sub, out):
-          ok = False
-      elif sub.get("required") is True:
-        out.append(("required", v, [key]))
-        ok = False
   return ok
 
 
@@ -968,7 +1140,7 @@ def judge(inp):
     return fail("C20:input-modified", "validate modified its arguments", "arguments unchanged")
   out = []
   draft = schema.get("$schema") if isinstance(schema, dict) else None
-  ok = walk_draft3(value, schema, out) if draft == DRAFT3 else walk(value, schema, out, draft4=(draft == DRAFT4))
+  ok = walk(value, schema, out, draft={DRAFT3: 3, DRAFT4: 4}.get(draft, 0))
   kinds = {k for k, _, _ in out if k not in ("anyOf", "oneOf")}
   lib = (E.SigoptValidationError, E.MissingJsonKeyError, E.InvalidTypeError, E.InvalidValueError, E.InvalidKeyError)
   if type(exc).__name__ == "SchemaError" and type(exc).__module__.startswith("jsonschema"):
@@ -1137,14 +1309,82 @@ def fam_huge(rng):
   return dict(family=FAM_HUGE, value=v, schema=s)
 
 
+D3_LEAVES = [({"type": "integer", "minimum": 0}, 3), ({"type": "string", "maxLength": 3}, "ab"), ({"type": ["string", "null"]}, None),
+             ({"enum": [1, "a"]}, "a"), ({}, [1, {"z": 2}]), ({"type": "number"}, 2.5),
+             ({"type": "array", "items": {"type": "boolean"}, "minItems": 1}, [True, False]), ({"type": "string", "pattern": "^a"}, "ab")]
+D3_LEAVES_WIDE = [({"type": "any"}, {"k": 1.0}), ({"type": "integer", "divisibleBy": 2}, 4), ({"title": "t"}, 1.0)]
+
+
+def d3_targeted(rng, wide):
+  """A draft-3 object schema whose properties carry `required: true`, `required: false` or no flag, and a valid value from which
+  properties are dropped; then wrapped 0-3 times: under a key of any shape (itself required), as the items of an array, in `extends`, or
+  under both `properties` and `items`.  wide adds what only the searcher's oracle reads: `any`, divisibleBy, dependencies, integral floats."""
+  keys = rng.sample(D3_KEYS + UNI_KEYS, rng.randint(1, 4))
+  props, val, flags = {}, {}, {}
+  for k in keys:
+    sc, v = rng.choice(D3_LEAVES + (D3_LEAVES_WIDE if wide else []))
+    props[k], val[k] = copy.deepcopy(sc), copy.deepcopy(v)
+    r = rng.random()
+    if r < 0.6:
+      props[k]["required"] = flags[k] = True
+    elif r < 0.8:
+      props[k]["required"] = flags[k] = False
+    if rng.random() < 0.5:   # the flag anywhere among the keywords of the sub-schema
+      props[k] = dict(sorted(props[k].items(), key=lambda kv: rng.random()))
+  s = {"type": "object", "properties": props}
+  shape = rng.random()
+  drop = [k for k in keys if rng.random() < (0.5 if shape < 0.8 else 0.0)]
+  if shape < 0.25:
+    drop = [k for k in drop if flags.get(k) is not True]     # only properties that are not required are missing: the value conforms
+  for k in drop:
+    del val[k]
+  q = rng.random()
+  if q < 0.3:
+    s["additionalProperties"] = False
+  elif q < 0.4:
+    s["additionalProperties"] = {"type": "integer"}
+    val.setdefault("extra", 1)
+  if rng.random() < 0.2:
+    s["patternProperties"] = {"^zz": {"type": "integer"}}
+    if rng.random() < 0.6:
+      val["zz1"] = 3
+  if rng.random() < 0.15:
+    s["extends"] = rng.choice([{"properties": {"w_1": {"type": "integer", "required": rng.random() < 0.5}}}, [{"title": "t"}, {"properties": {"w_1": {"required": True}}}]])
+    if rng.random() < 0.5 and "additionalProperties" not in s:
+      val["w_1"] = 2
+  if wide and rng.random() < 0.15:
+    s["dependencies"] = {keys[0]: rng.choice([keys[-1], [keys[-1]], {"properties": {"dep": {"required": True}}}])}
+  if rng.random() < 0.2:
+    s[rng.choice(["title", "description"])] = "d"
+  for _ in range(rng.randint(0, 3)):
+    w = rng.randrange(4)
+    if w == 0:
+      k = rng.choice(D3_KEYS + ["é"])
+      s, val = {"type": "object", "properties": {k: dict(s, required=True)}}, ({k: val} if rng.random() < 0.85 else {})
+    elif w == 1:
+      n = rng.randint(1, 3)
+      s, val = {"type": "array", "items": s}, [copy.deepcopy(val) for _ in range(n)]
+    elif w == 2:
+      s = {"extends": rng.choice([s, [s], [{}, s]])}
+    else:
+      s = {"type": ["object", "array", "null"], "properties": {"k": s}, "items": s}
+      val = rng.choice([{"k": val}, [val]])
+  s = dict(s)
+  s["$schema"] = DRAFT3
+  return s, val
+
+
 def fam_draft3(rng):
-  keys = rng.sample(KEYS, rng.randint(1, 3))
-  props = {k: {"type": rng.choice(["integer", "string", "any"]), "required": True} for k in keys}
-  v = {k: rng.choice([1, "s"]) for k in keys[1:] if rng.random() < 0.5}
-  ok_types = all(o_type(v[k], props[k]["type"], False) for k in v)
-  if not ok_types:
-    v = {}
-  return dict(family=FAM_D3, value=v, schema={"$schema": DRAFT3, "type": "object", "properties": props})
+  """Draft-3 schemas ($schema draft-03): `required` is a boolean inside the sub-schema of a property.  Half of the inputs are a valid
+  object from which required (and not required) properties are dropped somewhere below the root - under keys of every shape, inside
+  array items, next to additionalProperties / patternProperties / extends / dependencies / bounds; half are random draft-3 schemas."""
+  if rng.random() < 0.5:
+    schema = gen_schema3(rng, rng.randint(1, 4), wide=True)
+    value = gen_value(rng, schema, 4, wide=True)
+    schema["$schema"] = DRAFT3
+  else:
+    schema, value = d3_targeted(rng, True)
+  return dict(family=FAM_D3, value=value, schema=schema)
 
 
 def search(ctx, hints, broken):
@@ -1162,7 +1402,10 @@ def search(ctx, hints, broken):
   rng = ctx.rng
   for _ in range(3):
     run(fam_huge(rng))
+  for _ in range(ctx.n(300, 5000)):
     run(fam_draft3(rng))
+    if len(fails) >= 12:
+      break
   budget = ctx.n(2500, 40000) * (2 if broken else 1)
   for i in range(budget):
     r = i % 10
@@ -1180,7 +1423,7 @@ def search(ctx, hints, broken):
     if len({f["signature"] for f in fails}) >= 6:
       break
   return dict(evaluations=n, failures=fails, samples=samples,
-              oracle="plain-Python JSON-Schema reading (drafts 2020-12 / 7 / 4 and the draft-3 required fragment); exact library classes; exposed attributes")
+              oracle="plain-Python JSON-Schema reading (drafts 2020-12 / 7 / 4 and draft 3: boolean required, any, extends, divisibleBy, dependencies); exact library classes; exposed attributes")
 
 
 def replay(ctx, payload):
@@ -1189,7 +1432,8 @@ def replay(ctx, payload):
 
 LEVEL_TEXT = ("Coq theorems on an executable model of validate / process_error and of the error classes: for every ValidationError record "
               "satisfying the stated jsonschema contract (wf_verr), of any context depth, the translation terminates in one of the library's "
-              "error classes with a non-empty message; required / type errors expose the offending key / value and type; for every "
+              "error classes with a non-empty message - the draft-3 `required` record (boolean validator value, key at the end of the path) "
+              "included; required (both record shapes) / type errors expose the offending key / value and type; for every "
               "additionalProperties:false error whose unknown keys are ASCII identifier-like - with or without patternProperties, whatever "
               "the patterns - invalid_key is the smallest unknown key (the regular expression returns the sorted unknown keys first, then, "
               "for patterns with plain reprs, exactly the identifier-like patterns); validate is silent iff the value conforms, relative to "
@@ -1197,7 +1441,8 @@ LEVEL_TEXT = ("Coq theorems on an executable model of validate / process_error a
               "incl. both message formats) and the model are tied to the code by differential runs evaluated inside Coq")
 LEVEL_NOTE = ("jsonschema itself is trusted through a contract that is tested, not proved; draft 2020-12 semantics in the model; unknown-key "
               "exposure is proved for ASCII identifiers only (_partial: Python's \\w is Unicode; non-ASCII word characters are decided by the "
-              "searcher); a record without unknown key (never raised by jsonschema) would expose a pattern (proved, with witness); two inputs "
-              "on the unchanged tree leak raw exceptions (known findings); harness and printers trusted; no axioms")
+              "searcher); a record without unknown key (never raised by jsonschema) would expose a pattern (proved, with witness); one input "
+              "leaks a raw exception raised inside jsonschema (known finding: multipleOf on a huge int); the draft-3 `required` TypeError is "
+              "repaired (corpus witness); harness and printers trusted; no axioms")
 TECHNIQUE = "Coq proof (structural induction on the error-context tree, scanner invariant) on executable model + in-Coq differential correspondence"
 DESIGN_REF = "DESIGN.md section 7, C20"
